@@ -62,3 +62,14 @@ pub fn v_parse_f64(s: &str) -> (r: Result<f64, ()>) ensures (r is Ok) == (parse_
 pub fn v_f64_lt(a: f64, b: f64) -> (r: bool) ensures r == f64_lt(a, b) { a < b }
 #[verifier::external_body]
 pub fn v_f64_gt(a: f64, b: f64) -> (r: bool) ensures r == f64_gt(a, b) { a > b }
+#[verifier::external_body]
+pub fn v_str_contains_char(s: &str, c: char) -> (r: bool) ensures r == s@.contains(c) { s.contains(c) }
+/// names / values std::env::set_var and std::env::remove_var take WITHOUT panicking (std documents: "may panic if key is
+/// empty, contains an ASCII equals sign '=' or the NUL character, or when value contains the NUL character")
+pub open spec fn env_name_ok(s: Seq<char>) -> bool { s.len() > 0 && !s.contains('=') && !s.contains('\0') }
+pub open spec fn env_value_ok(s: Seq<char>) -> bool { !s.contains('\0') }
+/// std::env::remove_var / set_var (trusted: the precondition is std's documented no-panic condition)
+#[verifier::external_body]
+pub fn v_env_remove_var(name: &str) requires env_name_ok(name@) { unimplemented!() }
+#[verifier::external_body]
+pub fn v_env_set_var(name: &str, value: &str) requires env_name_ok(name@), env_value_ok(value@) { unimplemented!() }
